@@ -90,6 +90,15 @@ def run(rep: Report, ctx: Any) -> str:
                       "to the templates that generate code around a property - the same set of exported macros in their property templates (callers "
                       "test for a macro's presence and fall back to generic code when it is missing) and the same allowed parameter locations")
 
+    rep.rule("R16.8", "use_path_prefixes_for_title_model_names off means: a schema that has a title is named by that title alone.  On every path "
+                      "through ModelProperty.build (private helpers inlined, executed symbolically) that can be taken with the option off and "
+                      "`<schema>.title` set, the string handed to Class.from_string is computed from `<schema>.title` and from no other "
+                      "parameter (no parent name, no property key) - whatever else the path tests")
+    rep.rule("R16.9", "what the configuration file says is what the options are: the model the file is decoded into (ConfigFile and the models "
+                      "nested in its fields) switches on no pydantic facility that converts, rewrites or renames values while decoding - no "
+                      "rewriting option in model_config / class Config / Field(...) / StringConstraints(...) / constr(...) (number-to-string "
+                      "coercion, stripping, case folding, aliases), no validator function or method that can replace a value - and every "
+                      "field is declared with the type of the Config field it feeds (None apart)")
     cfgc = ix.cls("Config")
     cff = ix.cls("ConfigFile")
     fs = cfgc.methods.get("from_sources")
@@ -192,6 +201,8 @@ def run(rep: Report, ctx: Any) -> str:
     _r163_media_types(rep, ix)
     _r166_override_key(rep, ix, cfgc)
     _r167_switched_classes(rep, ix, ctx.jinja)
+    _r168_title_names(rep, ix)
+    _r169_file_model(rep, ix, cfgc, cff)
     # ---- R16.4 --------------------------------------------------------------------------------------------------------------
     _r164_tags(rep, ix, callers)
     _r164_builder(rep, ix)
@@ -202,15 +213,58 @@ def run(rep: Report, ctx: Any) -> str:
 
 # ---- where a value comes from / goes to, across locals and private helpers ------------------------------------------------------------
 
+def _private_name(n: str) -> bool:
+    return n.startswith("_") and not n.startswith("__")
+
+
 def _is_private(f: Any) -> bool:
-    return f.name.startswith("_") and not f.name.startswith("__")
+    """not part of anybody's interface: a function with a private name, or a (non-special) method of a class with a private name"""
+    return _private_name(f.name) or (f.cls is not None and _private_name(f.cls.name) and not f.name.startswith("__"))
+
+
+def _private_class_method(ix: Any, g: Any, c: ast.Call) -> Any:
+    """the method a call `<_PrivateClass>.m(...)` in g executes, the class being one of g's own module (`self.m` / `cls.m` inside a method
+    of such a class included); None for any other call"""
+    cn = call_name(c)
+    if "." not in cn:
+        return None
+    head, last = cn.rsplit(".", 1)
+    if last.startswith("__"):
+        return None
+    k = g.cls if head in ("self", "cls") and g.cls is not None else g.module.classes.get(head)
+    if k is None or not _private_name(k.name):
+        return None
+    return ix.find_method(k, last)
+
+
+def _helpers_of(ix: Any, g: Any) -> list[Any]:
+    """the functions that work for g alone as far as the interface is concerned: astutil.region at depth 1 (private names of g's module /
+    class) and the methods of private classes of g's module that g calls through the class"""
+    out = region(ix, g, 1)[1:]
+    seen = {h.qual for h in out} | {g.qual}
+    for c in ast.walk(g.node):
+        if isinstance(c, ast.Call):
+            h = _private_class_method(ix, g, c)
+            if h is not None and h.qual not in seen and h.module is g.module:
+                seen.add(h.qual)
+                out.append(h)
+    return out
+
+
+def _helper_called(ix: Any, g: Any, c: ast.Call, helpers: list[Any]) -> Any:
+    """the helper of g (one of _helpers_of) that call c executes, if any"""
+    h = _private_class_method(ix, g, c)
+    if h is not None:
+        return next((x for x in helpers if x.qual == h.qual), None)
+    last = call_name(c).rsplit(".", 1)[-1]
+    return next((x for x in helpers if x.name == last and _private_name(x.name)), None)
 
 
 def _callers(ix: Any) -> dict[str, list[Any]]:
     """private helper -> the functions that call it as one (the inverse of astutil.region at depth 1)"""
     out: dict[str, list[Any]] = {}
     for g in ix.all_functions:
-        for h in region(ix, g, 1)[1:]:
+        for h in _helpers_of(ix, g):
             if g.qual != h.qual:
                 out.setdefault(h.qual, []).append(g)
     return out
@@ -271,6 +325,9 @@ def _template_read_sites(t: str, allowed: set[str], rendered: set[str], loaders:
 
 
 def _calls_of(g: Any, h: Any) -> list[ast.Call]:
+    if not _private_name(h.name):  # a method of a private class: called through the class
+        return [c for c in ast.walk(g.node) if isinstance(c, ast.Call) and call_name(c).rsplit(".", 1)[-1] == h.name and
+                call_name(c).rsplit(".", 1)[0] in ({h.cls.name} | ({"self", "cls"} if g.cls is h.cls else set()))]
     return [c for c in ast.walk(g.node) if isinstance(c, ast.Call) and call_name(c).rsplit(".", 1)[-1] == h.name]
 
 
@@ -311,7 +368,7 @@ def _reaches_only(ix: Any, f: Any, n: ast.AST, sink: Any, depth: int = 3) -> boo
         return all(_reaches_only(ix, f, m, sink, depth - 1) for m in uses)
     call = par if isinstance(par, ast.Call) else _parent(f.node, par) if isinstance(par, ast.keyword) else None
     if isinstance(call, ast.Call) and call.func is not n:
-        h = next((h for h in region(ix, f, 1)[1:] if h.name == call_name(call).rsplit(".", 1)[-1]), None)
+        h = _helper_called(ix, f, call, _helpers_of(ix, f))
         if h is not None:
             pname = next((k for k, v in _bind_call(call, h).items() if v is n), None)
             if pname is None or pname not in _param_names(h):
@@ -740,6 +797,196 @@ def _const_set(ix: Any, m: Any, e: ast.AST, depth: int = 8) -> set[str] | None:
     return None
 
 
+# ---- R16.8: titled models without path prefixes ----------------------------------------------------------------------------------------
+
+def _given_truthy(e: ast.AST, text: str) -> ast.AST:
+    """e simplified by the knowledge that the expression spelled `text` is truthy: `text or x` is `text`, `a if text else b` is `a`"""
+    import copy
+
+    class T(ast.NodeTransformer):
+        def visit_BoolOp(self, n: ast.BoolOp) -> ast.AST:
+            self.generic_visit(n)
+            if isinstance(n.op, ast.Or):
+                for i, v in enumerate(n.values):
+                    if norm(_unbool(v)) == text:
+                        return v if i == 0 else ast.copy_location(ast.BoolOp(op=ast.Or(), values=n.values[:i + 1]), n)
+            return n
+
+        def visit_IfExp(self, n: ast.IfExp) -> ast.AST:
+            self.generic_visit(n)
+            t = _unbool(n.test)
+            if norm(t) == text:
+                return n.body
+            if isinstance(t, ast.UnaryOp) and isinstance(t.op, ast.Not) and norm(_unbool(t.operand)) == text:
+                return n.orelse
+            return n
+
+    return T().visit(copy.deepcopy(e))
+
+
+def _r168_title_names(rep: Report, ix: Any) -> None:
+    """The README: with the option off the generator 'will use the title property of any object that has it set without prefixing'.  The
+    class of a model is minted by Class.from_string from one string; which string is decided in ModelProperty.build.  Decided on values and
+    path conditions: the function is executed symbolically; wherever Class.from_string is reached on a path that does not exclude
+    `option off and <schema>.title set`, the string must be made of the title only.  A proxy for 'has a title' (comparing the title with
+    the fallback name, testing its length, ...) leaves such a path open with a prefixed value."""
+    option = "use_path_prefixes_for_title_model_names"
+    f = ix.func("parser.properties.model_property.ModelProperty.build")
+    schema_params = [p.arg for p in f.params if p.annotation is not None and norm(p.annotation).rsplit(".", 1)[-1].strip("'\"") == "Schema"]
+    rep.require(len(schema_params) == 1, "the schema parameter of ModelProperty.build (the one annotated as Schema)")
+    title = f"{schema_params[0]}.title"
+    others = {p.arg for p in f.params} - {schema_params[0]}
+    sx = SymExec(ix, watch=lambda c: call_name(c).endswith("Class.from_string"), stop_at_hit=True)
+    sx.run(f)
+    hits = [(c, call, g) for c, call, g in sx.hits if consistent(c)]
+    rep.require(hits, "a call of Class.from_string reached from ModelProperty.build")
+    bad: list[tuple[str, str]] = []
+    n = 0
+    for conds, call, g in hits:
+        v0 = {k.arg: k.value for k in call.keywords}.get("string", call.args[0] if call.args else None)
+        rep.require(v0 is not None, "the string handed to Class.from_string")
+        for st, v in sx.values(v0, State(dict(sx.hit_env.get(id(call), {})), tuple(conds)), g, 1):  # a helper in argument position is inlined
+            for ac, av in alternatives(v):
+                allc = tuple(st.conds) + tuple(ac)
+                atoms: list = []
+                for e, _ in allc:
+                    _atoms(e, atoms)
+                premise = {a: False for a in atoms if a[0] == "truthy" and a[1].rsplit(".", 1)[-1] == option}
+                premise[("truthy", title)] = True
+                premise[("none", title)] = False
+                if not possible(allc, premise):
+                    continue
+                n += 1
+                av = _given_truthy(av, title)
+                rep.require(UNKNOWN not in names_in(av), f"the value of the class string on the path `{conds_text(allc)[:160]}`")
+                uses_title = any(isinstance(x, ast.Attribute) and norm(x) == title for x in ast.walk(av))
+                foreign = sorted(_free_names(av) & others)
+                if not uses_title or foreign:
+                    bad.append((norm(av)[:120], conds_text(allc)[:200]))
+    rep.floor("titled_model_name_paths", n, 1)
+    rep.check(not bad, "R16.8", f"{short(f)}::titled-model-named-by-its-title-when-prefixes-are-off",
+              f"with {option} off a schema that has a title can still be named from something else than its title "
+              f"({'; '.join(f'{v} when {c}' for v, c in bad[:2])}): the option does not have its documented effect for those schemas",
+              where(f, f.node), lhs=bad[:4] or title, rhs=f"a string computed from {title} alone whenever the option is off and {title} is set")
+
+
+# ---- R16.9: the configuration file is decoded as written --------------------------------------------------------------------------------
+
+# pydantic facilities that make the decoded value differ from the written one (model_config / class Config / Field / StringConstraints /
+# constr keywords), from pydantic's documentation
+_REWRITING_OPTIONS = {
+    "coerce_numbers_to_str": "numbers are turned into text (1.10 becomes '1.1')",
+    "str_strip_whitespace": "whitespace is stripped", "strip_whitespace": "whitespace is stripped",
+    "str_to_lower": "text is lower-cased", "to_lower": "text is lower-cased",
+    "str_to_upper": "text is upper-cased", "to_upper": "text is upper-cased",
+    "alias": "the option is read under another key", "validation_alias": "the option is read under another key",
+    "alias_generator": "options are read under computed keys",
+    "val_json_bytes": "bytes are re-encoded", "ser_json_bytes": "bytes are re-encoded",
+}
+_VALIDATOR_WRAPPERS = ("BeforeValidator", "AfterValidator", "PlainValidator", "WrapValidator")
+_VALIDATOR_DECORATORS = ("field_validator", "model_validator", "validator", "root_validator")
+
+
+def _plain_type(ann: ast.AST | None) -> str:
+    """an annotation as a type, None apart: `Optional[T]` / `Union[T, None]` / `T | None` is T, `Annotated[T, ...]` is T, typing's
+    capitalised generics are the builtins"""
+    if ann is None:
+        return "?"
+    if isinstance(ann, ast.Constant) and isinstance(ann.value, str):
+        try:
+            ann = ast.parse(ann.value, mode="eval").body
+        except SyntaxError:
+            return ann.value
+    if isinstance(ann, ast.Subscript):
+        head = norm(ann.value).rsplit(".", 1)[-1]
+        args = list(ann.slice.elts) if isinstance(ann.slice, ast.Tuple) else [ann.slice]
+        if head == "Optional":
+            return _plain_type(args[0])
+        if head == "Annotated":
+            return _plain_type(args[0])
+        if head == "Union":
+            rest = sorted(_plain_type(a) for a in args if not (isinstance(a, ast.Constant) and a.value is None))
+            return rest[0] if len(rest) == 1 else "Union[" + ", ".join(rest) + "]"
+        low = {"List": "list", "Dict": "dict", "Set": "set", "Tuple": "tuple", "FrozenSet": "frozenset", "Type": "type"}.get(head, head)
+        return f"{low}[{', '.join(_plain_type(a) for a in args)}]"
+    if isinstance(ann, ast.BinOp) and isinstance(ann.op, ast.BitOr):
+        parts, todo = [], [ann]
+        while todo:
+            x = todo.pop()
+            if isinstance(x, ast.BinOp) and isinstance(x.op, ast.BitOr):
+                todo += [x.right, x.left]
+            elif not (isinstance(x, ast.Constant) and x.value is None):
+                parts.append(_plain_type(x))
+        parts.sort()
+        return parts[0] if len(parts) == 1 else "Union[" + ", ".join(parts) + "]"
+    if isinstance(ann, ast.Constant) and ann.value is None:
+        return "None"
+    return norm(ann).rsplit(".", 1)[-1]
+
+
+def _r169_file_model(rep: Report, ix: Any, cfgc: Any, cff: Any) -> None:
+    """R16.1 follows a value from the ConfigFile object to the Config object; this is the step before: from the text of the file to the
+    ConfigFile object.  pydantic decodes a plainly annotated field as written (text stays text, a number is not text); every facility that
+    changes that is switched on by something visible in the class: an option in its configuration, in a Field / constraint object of a
+    field's annotation or default, a validator.  Models nested in field annotations (ClassOverride) are decoded by the same rules."""
+    models, todo = [], [cff]
+    while todo:
+        k = todo.pop()
+        if k.qual in {m.qual for m in models}:
+            continue
+        models.append(k)
+        for c in ix.mro(k):
+            for ann in c.fields.values():
+                for x in ast.walk(ann) if ann is not None else []:
+                    if isinstance(x, (ast.Name, ast.Attribute)):
+                        r = ix.resolve(c.module, norm(x))
+                        if r and r[0] == "class" and any(b.rsplit(".", 1)[-1] == "BaseModel" for b in ix.ext_bases(r[1])):
+                            todo.append(r[1])
+    n = 0
+    for k in models:
+        bad: list[str] = []
+        for c in ix.mro(k):
+            for st in c.node.body:
+                # the model's own configuration
+                if isinstance(st, (ast.Assign, ast.AnnAssign)) and st.value is not None:
+                    tg = st.targets[0] if isinstance(st, ast.Assign) else st.target
+                    if isinstance(tg, ast.Name) and tg.id == "model_config":
+                        v = st.value
+                        pairs = [(kw.arg or "**", kw.value) for kw in v.keywords] if isinstance(v, ast.Call) else \
+                            [(key.value if isinstance(key, ast.Constant) else "**", val) for key, val in zip(v.keys, v.values)] if isinstance(v, ast.Dict) else [("**", v)]
+                        bad += [f"model_config {o}" for o, val in pairs if (o in _REWRITING_OPTIONS or o == "**") and not (isinstance(val, ast.Constant) and val.value in (False, None))]
+                elif isinstance(st, ast.ClassDef) and st.name == "Config":
+                    bad += [f"Config.{t.id}" for s2 in st.body if isinstance(s2, ast.Assign) for t in s2.targets if isinstance(t, ast.Name) and t.id in _REWRITING_OPTIONS
+                            and not (isinstance(s2.value, ast.Constant) and s2.value.value in (False, None))]
+                elif isinstance(st, (ast.FunctionDef, ast.AsyncFunctionDef)):
+                    bad += [f"@{call_name(d) if isinstance(d, ast.Call) else norm(d)} {st.name}" for d in st.decorator_list
+                            if (call_name(d) if isinstance(d, ast.Call) else norm(d)).rsplit(".", 1)[-1] in _VALIDATOR_DECORATORS]
+                # each field: what its annotation and its default carry
+                if isinstance(st, ast.AnnAssign) and isinstance(st.target, ast.Name):
+                    n += 1
+                    for x in [y for part in (st.annotation, st.value) if part is not None for y in ast.walk(part)]:
+                        if not isinstance(x, ast.Call):
+                            continue
+                        last = call_name(x).rsplit(".", 1)[-1]
+                        if last in _VALIDATOR_WRAPPERS:
+                            bad.append(f"{st.target.id}: {last}(...)")
+                        bad += [f"{st.target.id}: {last}({kw.arg or '**'}=...)" for kw in x.keywords if (kw.arg in _REWRITING_OPTIONS or kw.arg is None)
+                                and not (isinstance(kw.value, ast.Constant) and kw.value.value in (False, None))]
+        rep.check(not bad, "R16.9", f"{k.name}::decoded-as-written",
+                  f"the configuration file is not decoded as written: {'; '.join(bad[:4])}" +
+                  "".join(f" - {_REWRITING_OPTIONS[o]}" for o in _REWRITING_OPTIONS if any(o in b for b in bad[:1])),
+                  where=f"{k.module.rel}:{k.node.lineno}", lhs=bad or "plain fields", rhs="no converting / rewriting / renaming facility")
+    rep.floor("config_file_fields", n, 9)
+    # the type a field is decoded as is the type the option has
+    file_fields, cfg_fields = ix.all_fields(cff), ix.all_fields(cfgc)
+    for fld, ann in file_fields.items():
+        if fld in cfg_fields:
+            a, b = _plain_type(ann), _plain_type(cfg_fields[fld])
+            rep.check(a == b, "R16.9", f"ConfigFile.{fld}::type-of-the-option", f"the configuration file accepts `{a}` for `{fld}` while the option is `{b}`: "
+                      "a value of another type is accepted and converted (or passed on as it is) instead of being refused",
+                      where=f"{cff.module.rel}:{cff.node.lineno}", lhs=a, rhs=b)
+
+
 def _exported_names(tree: Any) -> set[str]:
     """the macros a template module offers to the templates that import it: those defined at the top level of the file whose name does
     not start with `_` (Jinja exports nothing else; a macro nested in another one or named `_x` is the file's own business)"""
@@ -891,10 +1138,11 @@ def _write_events(ix: Any, f: Any, stack: set[str]) -> int:
     if f.qual in stack or len(stack) > 6:
         return 0
     n = sum(1 for c in ast.walk(f.node) if isinstance(c, ast.Call) and _text_write(c))
-    helpers = {h.name: h for h in region(ix, f, 1)[1:]}
+    helpers = _helpers_of(ix, f)
     for c in ast.walk(f.node):
-        if isinstance(c, ast.Call) and call_name(c).rsplit(".", 1)[-1] in helpers:
-            n += _write_events(ix, helpers[call_name(c).rsplit(".", 1)[-1]], stack | {f.qual})
+        h = _helper_called(ix, f, c, helpers) if isinstance(c, ast.Call) else None
+        if h is not None:
+            n += _write_events(ix, h, stack | {f.qual})
     return n
 
 
@@ -1293,9 +1541,10 @@ def _element(it_: ast.AST, idx: int | None = None) -> ast.AST:
 class SymExec:
     MAX_STATES = 256
 
-    def __init__(self, ix: Any, watch: Any = None, inline_depth: int = 2, record: bool = False) -> None:
+    def __init__(self, ix: Any, watch: Any = None, inline_depth: int = 2, record: bool = False, stop_at_hit: bool = False) -> None:
         self.ix = ix
         self.watch = watch
+        self.stop_at_hit = stop_at_hit  # a path is followed up to the first statement that makes a watched call (what comes after is not asked for)
         self.inline_depth = inline_depth
         self.recorded: list[ast.AST] | None = [] if record else None  # every expression a statement evaluates (tests included), substituted
         self.hits: list[tuple[tuple[Cond, ...], ast.Call, Any]] = []  # (path condition, watched call with locals substituted, function)
@@ -1328,11 +1577,17 @@ class SymExec:
             for h in self.ix.all_functions:
                 if h.parent is not None and h.parent.qual in scopes and h.qual not in scopes:
                     known.setdefault(h.name, h)
-            for h in region(self.ix, f, 1)[1:]:
-                known.setdefault("." + h.name, h)
+            for h in _helpers_of(self.ix, f):
+                if _private_name(h.name):
+                    known.setdefault("." + h.name, h)
             self._helpers[f.qual] = known
         cn = call_name(call)
-        return (known.get(cn) if "." not in cn else None) or known.get("." + cn.rsplit(".", 1)[-1])
+        h = (known.get(cn) if "." not in cn else None) or known.get("." + cn.rsplit(".", 1)[-1])
+        if h is None:
+            h = _private_class_method(self.ix, f, call)  # `<_PrivateClass>.m(...)`
+            if h is not None and (h.module is not f.module or h.qual == f.qual):
+                h = None
+        return h
 
     def values(self, v: ast.AST, s: State, f: Any, depth: int) -> list[tuple[State, ast.AST]]:
         """the (already substituted) value, a call to a helper of f (private function / method, closure) replaced by what the helper
@@ -1359,6 +1614,8 @@ class SymExec:
         bound.update(_bind_call(v, h))
         for n in names:
             bound.setdefault(n, _unknown())
+        if h.kind == "classmethod" and h.cls is not None and h.params and isinstance(v.func, ast.Attribute) and norm(v.func.value) == h.cls.name:
+            bound[h.params[0].arg] = ast.Name(id=h.cls.name, ctx=ast.Load())  # called through the class itself: `cls` is that class
         if h.kind == "method" and f.kind == "method" and isinstance(v.func, ast.Attribute) and norm(v.func.value) == f.params[0].arg:
             # the same object: what the caller knows about its attributes holds in the helper
             bound.update({f"{h.params[0].arg}.{k.split('.', 1)[1]}": val for k, val in s.env.items() if k.startswith(f.params[0].arg + ".")})
@@ -1381,14 +1638,17 @@ class SymExec:
                 raise AnalysisError(f"symbolic execution of {short(f)}: more than {self.MAX_STATES} paths")
         return states
 
-    def _note(self, st: ast.stmt, s: State, f: Any) -> None:
+    def _note(self, st: ast.stmt, s: State, f: Any) -> bool:
         if self.watch is None:
-            return
+            return False
+        hit = False
         for n in walk_own(st):
             if isinstance(n, ast.Call) and self.watch(n):
                 call = substitute(n, s.env)
                 self.hits.append((s.conds, call, f))
                 self.hit_env[id(call)] = s.env
+                hit = True
+        return hit
 
     def _forget(self, s: State, cell: str) -> None:
         s.env[cell] = _unknown()
@@ -1421,10 +1681,31 @@ class SymExec:
                     todo += [c.func.attr for c in ast.walk(m.node) if isinstance(c, ast.Call) and isinstance(c.func, ast.Attribute)
                              and isinstance(c.func.value, ast.Name) and c.func.value.id == its]
 
-    def _bind(self, t: ast.AST, val: ast.AST, s: State) -> None:
+    def _record(self, val: ast.AST, f: Any) -> dict[str, ast.AST] | None:
+        """field -> value of `<Class>(...)` when Class is a plain record of the package (NamedTuple / dataclass / attrs class: annotated
+        fields, no constructor or post-init hook of its own), whose attributes are what it was constructed with"""
+        if f is None or not isinstance(val, ast.Call) or any(isinstance(a, ast.Starred) for a in val.args) or any(k.arg is None for k in val.keywords):
+            return None
+        r = self.ix.resolve(f.module, call_name(val))
+        if not r or r[0] != "class":
+            return None
+        k = r[1]
+        fields = list(self.ix.all_fields(k))
+        if not fields or any(self.ix.find_method(k, m) is not None for m in ("__init__", "__new__", "__post_init__", "__attrs_post_init__")):
+            return None
+        if any(isinstance(d, ast.Call) and any(kw.arg in ("converter", "factory", "default_factory") for kw in d.keywords)
+               for c in self.ix.mro(k) for d in c.field_defaults.values()):
+            return None
+        out = {fields[i]: a for i, a in enumerate(val.args) if i < len(fields)}
+        out.update({kw.arg: kw.value for kw in val.keywords if kw.arg in fields})
+        return out
+
+    def _bind(self, t: ast.AST, val: ast.AST, s: State, f: Any = None) -> None:
         if isinstance(t, ast.Name):
             self._forget(s, t.id)
             s.env[t.id] = val
+            for fld, fv in (self._record(val, f) or {}).items():
+                s.env[f"{t.id}.{fld}"] = fv  # a record just built: each attribute is the argument it was given
         elif isinstance(t, ast.Attribute) and isinstance(t.value, ast.Name):
             self._forget(s, f"{t.value.id}.{t.attr}")
             s.env[f"{t.value.id}.{t.attr}"] = val
@@ -1453,7 +1734,8 @@ class SymExec:
             self._bind(t, _element(it_), s)
 
     def _stmt(self, st: ast.stmt, s: State, rets: list, f: Any, depth: int) -> list[State]:
-        self._note(st, s, f)
+        if self._note(st, s, f) and self.stop_at_hit:
+            return []
         if self.recorded is not None:
             own = [getattr(st, a, None) for a in ("test", "value", "iter", "subject", "exc")] + [i.context_expr for i in getattr(st, "items", []) or []]
             self.recorded += [substitute(e, s.env) for e in own if isinstance(e, ast.AST)]
@@ -1466,7 +1748,7 @@ class SymExec:
                 s2 = s2.fork()
                 self._method_effects(st, s2, f)
                 for t in targets:
-                    self._bind(t, val, s2)
+                    self._bind(t, val, s2, f)
                 out.append(s2)
             return out
         if isinstance(st, ast.AugAssign):
@@ -1553,6 +1835,13 @@ class SymExec:
 # -- path conditions --------------------------------------------------------------------------------------------------------------------
 # atoms: ("none", X) for `X is None`, ("truthy", X) for anything else used as a test; the one axiom is  X is None  =>  not X
 
+def _unbool(e: ast.AST) -> ast.AST:
+    """`bool(x)` used as a test is the test `x`"""
+    while isinstance(e, ast.Call) and isinstance(e.func, ast.Name) and e.func.id == "bool" and len(e.args) == 1 and not e.keywords:
+        e = e.args[0]
+    return e
+
+
 def _leaf(e: ast.AST) -> tuple[tuple[str, str], bool] | None:
     """(atom, polarity) of a test that is not a not/and/or; None for a constant"""
     if isinstance(e, ast.Compare) and len(e.ops) == 1 and isinstance(e.comparators[0], ast.Constant) and e.comparators[0].value is None and \
@@ -1562,6 +1851,7 @@ def _leaf(e: ast.AST) -> tuple[tuple[str, str], bool] | None:
 
 
 def _atoms(e: ast.AST, out: list) -> None:
+    e = _unbool(e)
     if isinstance(e, ast.BoolOp):
         for v in e.values:
             _atoms(v, out)
@@ -1580,6 +1870,7 @@ def _atoms_of(e: ast.AST) -> list:
 
 
 def _holds(e: ast.AST, asg: dict) -> bool:
+    e = _unbool(e)
     if isinstance(e, ast.BoolOp):
         vals = [_holds(v, asg) for v in e.values]
         return all(vals) if isinstance(e.op, ast.And) else any(vals)
@@ -1625,6 +1916,14 @@ def implies(conds: tuple[Cond, ...], atom: tuple[str, str], value: bool) -> bool
         return all(asg[atom] == value for asg in _models(conds, [atom]))
     except _TooManyAtoms:
         return False
+
+
+def possible(conds: tuple[Cond, ...], fixed: dict[tuple[str, str], bool]) -> bool:
+    """can the path be taken with the given atoms having the given values?  Undecided counts as yes."""
+    try:
+        return any(all(asg[a] == v for a, v in fixed.items()) for asg in _models(conds, list(fixed)))
+    except _TooManyAtoms:
+        return True
 
 
 def conds_text(conds: tuple[Cond, ...]) -> str:
